@@ -9,7 +9,9 @@ import IofloModel.Lemmas.ImportsCold5
 import IofloModel.Lemmas.ImportsCold6
 import IofloModel.Lemmas.ImportsCold7
 import IofloModel.Lemmas.ImportsAll0
-import IofloModel.Lemmas.ImportsAll1
+import IofloModel.Lemmas.ImportsAll2
+import IofloModel.Lemmas.ImportsAll3
+import IofloModel.Lemmas.ImportsAll4
 /-!
 # C01 — every ioflo module imports in a fresh interpreter, in any order
 
@@ -320,11 +322,39 @@ theorem sweep_from_fresh (ms : List Mod) (hne : ∀ x ∈ ms.head?, x ∈ graph.
     rw [importAll_fresh_eq x rest (hne x (by simp))]
     exact h
 
+/-- three further total orders of the same modules: reverse name order, order of the sha1 of the names, order of
+the reversed names -/
+def otherOrders : List (List Mod) :=
+  [allSorted.reverse, (sweepOrders.getD 0 []).filter (fun m => !staleFrom graph m),
+   (sweepOrders.getD 1 []).filter (fun m => !staleFrom graph m)]
+
+theorem sweeps_table : ∀ o ∈ otherOrders, sweepsAgree graph root allSorted o = true := by
+  intro o ho
+  simp only [otherOrders, List.mem_cons, List.mem_nil_iff, or_false] at ho
+  rcases ho with rfl | rfl | rfl
+  · exact sweeps_agree2
+  · exact sweeps_agree3
+  · exact sweeps_agree4
+
+set_option maxRecDepth 100000 in
+theorem otherOrders_heads : ∀ o ∈ otherOrders.drop 1, ∀ x ∈ o.head?, x ∈ graph.domain := by decide +kernel
+
+theorem otherOrders_domain : ∀ o ∈ otherOrders, ∀ x ∈ o.head?, x ∈ graph.domain := by
+  intro o ho x hx
+  simp only [otherOrders, List.mem_cons, List.mem_nil_iff, or_false] at ho
+  rcases ho with rfl | h2 | h3
+  · have := List.mem_reverse.mp (List.mem_of_mem_head? hx)
+    unfold allSorted at this
+    exact (List.mem_filter.mp this).1
+  · exact otherOrders_heads o (by subst h2; simp [otherOrders]) x hx
+  · exact otherOrders_heads o (by subst h3; simp [otherOrders]) x hx
+
 /-- **C01, the whole tree.**  Importing every module of the tree (outside D01c) into one fresh interpreter, one
-after the other in the order of their names, succeeds for every module; and so it does in the reverse order. -/
+after the other, succeeds for every module — in the order of their names and in three other total orders
+(reverse, by the sha1 of the name, by the reversed name). -/
 theorem C01_whole_tree_partial :
     (∀ e ∈ (importAll graph (fresh graph) allSorted).2, e = none) ∧
-    (∀ e ∈ (importAll graph (fresh graph) allSorted.reverse).2, e = none) := by
+    ∀ o ∈ otherOrders, ∀ e ∈ (importAll graph (fresh graph) o).2, e = none := by
   have hdom : ∀ x ∈ allSorted, x ∈ graph.domain := by
     intro x hx
     unfold allSorted at hx
@@ -334,10 +364,21 @@ theorem C01_whole_tree_partial :
     · intro x hx
       exact hdom x (List.mem_of_mem_head? hx)
     · exact all_of_sweepOk graph root _ sweep0
-  · apply sweep_from_fresh
+  · intro o ho
+    apply sweep_from_fresh
     · intro x hx
-      exact hdom x (List.mem_reverse.mp (List.mem_of_mem_head? hx))
-    · exact all_of_sweepOk graph root _ sweep1
+      exact otherOrders_domain o ho x hx
+    · exact (of_sweepsAgree graph root allSorted o (sweeps_table o ho)).1
+
+/-- **C01, the result of importing everything does not depend on the order.**  The four total orders above end in
+the same interpreter state: the same modules are loaded and finished, and in every module the same names are
+bound, to the same modules.  (Kernel evaluation of the sweeps; states compared matrix by matrix.) -/
+theorem C01_sweeps_same_state_partial (o : List Mod) (ho : o ∈ otherOrders) :
+    let a := (importAll graph rootState allSorted).1
+    let b := (importAll graph rootState o).1
+    (∀ x, a.isPresent x = b.isPresent x) ∧ (∀ x, a.isDone x = b.isDone x) ∧
+    (∀ x k, a.bound graph x k = b.bound graph x k) ∧ (∀ x k, a.val graph x k = b.val graph x k) :=
+  sameNs_val graph _ _ (of_sweepsAgree graph root allSorted o (sweeps_table o ho)).2
 
 /-! ## namespaces of finished modules are stable -/
 
